@@ -105,6 +105,7 @@ type SrcPkg struct {
 	Pkgs   []Pkg   `json:"pkgs"` // dependency packages, by index
 	Ifaces []Iface `json:"ifaces"`
 	Extra  string  `json:"-"` // extra declarations (local types)
+	Raw    map[string]string `json:"-"` // hand-written source files (file name -> content) instead of Ifaces
 }
 
 // Cfg is one moq configuration.
@@ -255,6 +256,12 @@ func constraintSrc(c string, r *renderer) string {
 		return "LocalC"
 	case c == "mixed":
 		return "interface{ ~int; String() string }"
+	case c == "ustring":
+		return "~string"
+	case c == "ufloat":
+		return "~float32 | ~float64"
+	case c == "ubytes":
+		return "~string | ~[4]byte"
 	case strings.HasPrefix(c, "pkgnum:"):
 		var p int
 		fmt.Sscanf(c, "pkgnum:%d", &p)
@@ -265,6 +272,9 @@ func constraintSrc(c string, r *renderer) string {
 
 // Files renders the source package: file name -> contents.
 func (s *SrcPkg) Files() map[string]string {
+	if s.Raw != nil {
+		return s.Raw
+	}
 	files := map[string]string{}
 	var main strings.Builder
 	fmt.Fprintf(&main, "package %s\n\n", s.Name)
